@@ -85,7 +85,7 @@ def run(ctx):
                              [("realpath", b"/x" + b"/loop" * k + b"/y") for k in (1, 20, 39, 40, 41, 45)]))
     impl, mod = t2.run_both("C16.graphs", cases, model=model_ok)
     res = {"name": "graphs", "n": 0, "mismatch": [], "oracle": [], "nontrivial": 0, "exhaustive": tier != "quick",
-           "desc": "realPath (hook) on every path of up to 3 components over all symlink graphs with two links whose targets range over %d absolute/relative/dangling/cyclic/'..'/through-a-link targets, plus graphs changed by earlier operations; model compared on the resolved string; oracle from the OS: no symlink among the parents of the result, same inode as the caller's path; non-trivial = the path runs through a symlink" % len(TARGETS)}
+           "desc": "realPath (hook) on paths of up to 3 components (quick: all of up to 2, a sample of 3) and relative spellings, over %s symlink graphs with two links whose targets range over %d absolute/relative/dangling/cyclic/'..'/through-a-link targets, plus graphs changed by earlier operations and names exceeding the kernel's 40-hop limit; model compared on the resolved string; oracle from the OS: no symlink among the parents of the result, same inode as the caller's path; non-trivial = the path runs through a symlink" % ("a sample of 70 of the %d" % (len(TARGETS) ** 2) if tier == "quick" else "all %d" % (len(TARGETS) ** 2), len(TARGETS))}
     nontriv = set()
     for c in cases:
         a = impl[c.id]
